@@ -293,7 +293,51 @@ func c07(c *Ctx) {
 	var live []snap
 	var script []string
 	tainted := map[string]bool{}
+	// strict view of what a FRESH manager would load for the base block: nothing executed on a manager that is
+	// later thrown away may change it ("discard leaves no trace"), not even by adding an empty-valued map key
+	strictView := func() map[int]string {
+		m := map[int]string{}
+		adb, err := db.GetActDatabase(gh)
+		if err != nil {
+			return m
+		}
+		for i, addr := range c07Addrs {
+			x, err := adb.Get(addr)
+			if err != nil {
+				m[i] = "absent"
+				continue
+			}
+			var pk []string
+			for k, v := range x.Candidate.Profile {
+				pk = append(pk, k+"="+v)
+			}
+			sort.Strings(pk)
+			var rk []string
+			for k, v := range x.NewestRecords {
+				rk = append(rk, fmt.Sprintf("%d:%d@%d", k, v.Version, v.Height))
+			}
+			sort.Strings(rk)
+			m[i] = fmt.Sprintf("profile{%s} records{%s} bal=%v votes=%v signers=%v", strings.Join(pk, ","), strings.Join(rk, ","), x.Balance, x.Candidate.Votes, x.Signers)
+		}
+		return m
+	}
+	leakBase := strictView()
+	leakSeen := map[string]bool{}
+	opNo := 0
 	emit := func(op, res string) {
+		if op == "reset" || opNo%16 == 0 {
+			for i, cur := range strictView() {
+				if old := leakBase[i]; old != cur && !leakSeen[old+cur] {
+					leakSeen[old+cur] = true
+					tail := script
+					if len(tail) > 12 {
+						tail = tail[len(tail)-12:]
+					}
+					c.Fail("c07/discard-leaves-trace/base-view-changed", fmt.Sprintf("op#%d: the base block's view of account %d (what a fresh manager loads) changed although nothing was saved: %s  =>  %s ; last ops: %v", opNo, i, old, cur, tail), map[string]interface{}{"script": append([]string{}, script...)})
+				}
+			}
+		}
+		opNo++
 		d, _ := w.observe()
 		c.Op(op, res+" | "+d)
 		script = append(script, op)
